@@ -12,16 +12,16 @@ VARIABLE st
 
 Init == st = Settle(Init0)
 
-Take(pc) == /\ st.pc = pc
-            /\ \E k \in 1..Len(st.cand) : Positive(st.law[k]) /\ st' = Apply(st, k)
-StartEnd    == Take("startEnd")
-HandOver    == Take("handOver")
-PickOpen    == Take("pickOpen")
-PickPartner == Take("pickPartner")
-PickListed  == Take("pickListed")
-Reserve     == Take("reserve")
-CapOpen     == Take("capOpen")
-CapEnd      == Take("capEnd")
+AnyChoice == \E k \in 1..Len(st.cand) : Positive(st.law[k]) /\ st' = Apply(st, k)   \* every option of non-zero probability
+(* one action per kind of decision (so that TLC's coverage reports each) *)
+StartEnd    == st.pc = "startEnd"    /\ AnyChoice
+HandOver    == st.pc = "handOver"    /\ AnyChoice
+PickOpen    == st.pc = "pickOpen"    /\ AnyChoice
+PickPartner == st.pc = "pickPartner" /\ AnyChoice
+PickListed  == st.pc = "pickListed"  /\ AnyChoice
+Reserve     == st.pc = "reserve"     /\ AnyChoice
+CapOpen     == st.pc = "capOpen"     /\ AnyChoice
+CapEnd      == st.pc = "capEnd"      /\ AnyChoice
 Draw        == st.pc = "draw" /\ \E t \in Targets[st.ei] : st' = ApplyDraw(st, t)
 
 Next == StartEnd \/ HandOver \/ PickOpen \/ PickPartner \/ PickListed \/ Reserve \/ CapOpen \/ CapEnd \/ Draw
